@@ -25,6 +25,10 @@ IO_ASSUMPTIONS = [
 ]
 
 MEMCMP = ["--unwindset", "memcmp.0:34"]
+# hashbrown's SSE2 group scan goes through Kani's simd_bitmask model (a 16-iteration loop); the ACL
+# decision harnesses run with unwind 2 everywhere else. If the mangled name changes (new Kani), the
+# unwinding assertion of that loop fails and the check reports INCONCLUSIVE, never a pass.
+SIMD_BITMASK = ["--unwindset", "_RINvNtNtCs7f35Cc4Kq59_4kani6models10intrinsics17simd_bitmask_implaKj10_ECs7BAA163zT1P_11memvid_core.0:17,_RINvNvNtCs8xvirJzNMvV_4core3ptr25swap_nonoverlapping_bytes26swap_nonoverlapping_chunksKj8_ECscrgiVT8UQOZ_6object.0:17"]
 # the in-memory disk (512 cells) is tracked cell by cell so that concretely-indexed reads stay concrete
 FIELDS = ["--max-field-sensitivity-array-size", "520"]
 
@@ -218,24 +222,25 @@ REG["C12"] = dict(
                                            bound="3 hits, 3 frames; evaluate_acl_metadata and normalize_acl_context replaced by arbitrary verdicts"),
         "c12_decision_tenant_and_visibility": H(module="acl", replay="solver-only", enc=["evaluate_acl_metadata"], sym="parse success, frame tenant, caller tenant, visibility, caller has a subject id or not",
                                bound="empty role/group/principal sets on both sides (no string hashing); parse_acl_metadata replaced by that parse result"),
-        "c12_decision_tenant_and_visibility": H(module="acl", replay="solver-only", enc=["evaluate_acl_metadata"], sym="parse success, frame tenant, caller tenant, visibility, caller has a subject id or not",
-                               bound="empty role/group/principal sets on both sides (no string hashing); parse_acl_metadata replaced by that parse result"),
-        "c12_decision_cross_namespace": H("experimental", module="acl", replay="solver-only", enc=["evaluate_acl_metadata"], sym="parse success, frame tenant, caller tenant, visibility",
+        "c12_decision_cross_namespace": H(module="acl", replay="solver-only", cbmc=SIMD_BITMASK, enc=["evaluate_acl_metadata"], sym="parse success, frame tenant, caller tenant, visibility",
                                bound="the frame allows group 'r' and role 'g', the caller has role 'r' and group 'g' (same words in the other namespace): must be denied unless public"),
-        "c12_decision_no_match": H("experimental", module="acl", replay="solver-only", enc=["evaluate_acl_metadata"], sym="parse success, frame tenant, caller tenant, visibility (public/restricted)",
+        "c12_decision_no_match": H(module="acl", replay="solver-only", cbmc=SIMD_BITMASK, enc=["evaluate_acl_metadata"], sym="parse success, frame tenant, caller tenant, visibility (public/restricted)",
                                bound="concrete one-element ACL sets (no role/group/principal of the caller is listed); parse_acl_metadata replaced by that parse result"),
-        "c12_decision_role_match": H("experimental", module="acl", replay="solver-only", enc=["evaluate_acl_metadata"], sym="parse success, frame tenant, caller tenant, visibility (public/restricted)",
+        "c12_decision_role_match": H(module="acl", replay="solver-only", cbmc=SIMD_BITMASK, enc=["evaluate_acl_metadata"], sym="parse success, frame tenant, caller tenant, visibility (public/restricted)",
                                bound="concrete one-element ACL sets (the caller's role is listed); parse_acl_metadata replaced by that parse result"),
-        "c12_decision_group_match": H("experimental", module="acl", replay="solver-only", enc=["evaluate_acl_metadata"], sym="parse success, frame tenant, caller tenant, visibility (public/restricted)",
+        "c12_decision_group_match": H(module="acl", replay="solver-only", cbmc=SIMD_BITMASK, enc=["evaluate_acl_metadata"], sym="parse success, frame tenant, caller tenant, visibility (public/restricted)",
                                bound="concrete one-element ACL sets (the caller's group is listed); parse_acl_metadata replaced by that parse result"),
-        "c12_decision_principal_match": H("experimental", module="acl", replay="solver-only", enc=["evaluate_acl_metadata"], sym="parse success, frame tenant, caller tenant, visibility (public/restricted)",
+        "c12_decision_principal_match": H(module="acl", replay="solver-only", cbmc=SIMD_BITMASK, enc=["evaluate_acl_metadata"], sym="parse success, frame tenant, caller tenant, visibility (public/restricted)",
                                bound="concrete one-element ACL sets (the caller's principal is listed); parse_acl_metadata replaced by that parse result"),
     },
-    assumptions=["metadata parsing (serde_json, case/quote normalisation) is NOT executed: replaced by arbitrary parse results — the normalisation layer is outside this claim"],
+    assumptions=["std SipHash (DefaultHasher write/write_str/finish) replaced by a constant hash in the c12_decision_*_match/cross_namespace harnesses: set semantics do not depend on the hash function, every key is told apart by == alone", "metadata parsing (serde_json, case/quote normalisation) is NOT executed: replaced by arbitrary parse results — the normalisation layer is outside this claim"],
     out=["parse_acl_metadata / normalize_scalar / serde_json", "that every retrieval entry point calls the filter (search does; ask/vec paths are feature-gated monoliths)"],
 )
 
 REG["C15"]["harnesses"].update({
+    "c15_timeline_window_both_bounds_1": H("experimental", module="timeline", replay="solver-only", enc=["timeline::build_timeline"], sym="frame timestamp, since, until (any i64)", bound="1 active frame, no time-index manifest (entries come from the TOC), forward, no limit; frame_preview ghosted, Frame::clone replaced by a scalar copy"),
+    "c15_timeline_window_one_bound_1": H("experimental", module="timeline", replay="solver-only", enc=["timeline::build_timeline"], sym="frame timestamp, the bound, which bound is present", bound="1 active frame, exactly one of since/until"),
+    "c15_timeline_window_both_bounds_2": H("experimental", module="timeline", replay="solver-only", enc=["timeline::build_timeline"], sym="2 frame timestamps, since, until", bound="2 active frames, both bounds present"),
     "c15_timeline_with_index": H("thorough", module="timeline", replay="solver-only", enc=["timeline::build_timeline"], sym="3 frames: timestamp, current status; since, until (Option<i64>), reverse, limit 0..4",
                                  bound="3 document frames, all listed in the time index (sorted by (ts,id) as commit writes it); statuses may have changed since"),
     "c15_timeline_extracted_image": H("thorough", module="timeline", replay="solver-only", expect="known", enc=["timeline::build_timeline"], sym="as above", bound="3 frames, frame 2 is an ExtractedImage child that is not in the time index"),
@@ -361,7 +366,11 @@ REG["C03"] = dict(
 REG["C20"] = dict(
     cbmc_args=MEMCMP,
     harnesses={"c02_rewrite_toc_footer_shrinks": dict(FOOTER), "c30_footer_decode_arbitrary": dict(REG["C30"]["harnesses"]["c30_footer_decode_arbitrary"]),
-               "c30_time_index_arbitrary_2": dict(REG["C30"]["harnesses"]["c30_time_index_arbitrary_2"])},
+               "c30_time_index_arbitrary_2": dict(REG["C30"]["harnesses"]["c30_time_index_arbitrary_2"]),
+               "c20_toc_checksum_gate_current": H(module="toc", replay="solver-only", enc=["Toc::verify_checksum"], sym="stored checksum (any 32 bytes), the digest (any 32 bytes)",
+                                          bound="TOC carrying a replay manifest (only the current encoding is tried); encoder and digest are ghosts: accept iff stored checksum equals the computed digest"),
+               "c20_toc_checksum_gate_legacy": H("experimental", module="toc", replay="solver-only", enc=["Toc::verify_checksum"], sym="stored checksum, three digests",
+                                          bound="TOC without replay manifest: all three encodings tried. NOT decided: cloning the empty manifest vectors into the legacy structs trips a CBMC pointer check (dangling zero-length slice) that does not fail in isolation")},
     assumptions=IO_ASSUMPTIONS + ["kernels only: the footer hash written is the hash of the TOC bytes written; decoders reject inconsistent magic/length"],
     out=["verify(deep) coverage of payload bytes", "open()'s use of the checksums over a whole file", "index segment bytes"],
 )
@@ -415,6 +424,24 @@ REG["C40"] = dict(
     out=["equality of search/vector/timeline results after finalize_indexes (Tantivy, index builders)", "ensure_wal_capacity data shifting", "compression level"],
 )
 
+GROWTH_ASSUME = ["log growth: shift_data_for_wal_growth (the byte mover), rewrite_toc_footer, persist_header, File::sync_all and EmbeddedWal::open are ghosts that record when they run and what the header/TOC said at that moment; the byte mover itself is not executed (1 MiB buffers)"]
+REG["C01"]["harnesses"].update({
+    "c01_wal_growth_shifts_frames_and_indexes": H(module="mutation", replay="solver-only", enc=["Memvid::adjust_offsets_after_wal_growth"], sym="growth amount (1..2^40), every section offset (any value behind the log, < 2^40)",
+                                                  bound="one frame, one segment, time/vec/lex index manifests present"),
+    "c01_wal_growth_shifts_tracks": H(module="mutation", replay="solver-only", enc=["Memvid::adjust_offsets_after_wal_growth"], sym="as above",
+                                      bound="one frame; CLIP index, memories track, logic mesh, sketch track and replay manifests present"),
+    "c01_grow_wal_region_protocol": H(module="mutation", replay="solver-only", enc=["Memvid::grow_wal_region", "adjust_offsets_after_wal_growth", "catalog_data_end"], sym="required entry size (1..2^24), payload offset, data end, log size 64 KiB or 1 MiB",
+                                      bound="one frame; order and arguments of shift / offset update / TOC rewrite / header write / fsync / log reopen"),
+})
+REG["C01"]["assumptions"] += GROWTH_ASSUME
+REG["C40"]["harnesses"].update({
+    "c40_wal_presize_protocol": H(module="mutation", replay="solver-only", enc=["Memvid::ensure_wal_capacity", "adjust_offsets_after_wal_growth", "catalog_data_end"], sym="requested pre-size (1..2^24), payload offset, data end, log size 64 KiB or 1 MiB",
+                                  bound="one frame; as c01_grow_wal_region_protocol for begin_batch's pre-sizing"),
+    "c01_wal_growth_shifts_tracks": dict(REG["C01"]["harnesses"]["c01_wal_growth_shifts_tracks"]),
+})
+REG["C40"]["assumptions"] += GROWTH_ASSUME
+REG["C40"]["out"] = [o for o in REG["C40"]["out"] if "ensure_wal_capacity" not in o] + ["the byte mover shift_data_for_wal_growth itself"]
+
 REG["C34"] = dict(
     cbmc_args=MEMCMP,
     harnesses={
@@ -466,6 +493,9 @@ REG["C18"] = dict(
     harnesses={
         "c18_wal_read_only_old_and_pending": H(module="wal", replay="solver-only", enc=["EmbeddedWal::open_read_only", "pending_records", "append_entry", "record_checkpoint", "should_checkpoint"],
                                                sym="any invariant log state with checkpointed and pending records (region 48 B - 64 MiB)", bound="one read-only open followed by a scan, an append, a checkpoint; scan ghosted; data-less disk counts every write"),
+        "c18_wal_read_only_open_only": H(module="wal", replay="solver-only", enc=["EmbeddedWal::open_read_only"], sym="any invariant log state with checkpointed and pending records", bound="one read-only open; data-less disk counts every write"),
+        "c18_wal_read_only_open_pending_only": H(module="wal", replay="solver-only", enc=["EmbeddedWal::open_read_only"], sym="any invariant log state with pending records only", bound="one read-only open"),
+        "c18_wal_read_only_scan_only": H(module="wal", replay="solver-only", enc=["EmbeddedWal::open_read_only", "pending_records"], sym="as above", bound="read-only open + one scan"),
         "c18_wal_read_only_empty": H("thorough", module="wal", replay="solver-only", enc=["EmbeddedWal::open_read_only", "pending_records", "append_entry", "record_checkpoint"], sym="any empty log", bound="as above, empty log"),
         "c18_header_read_without_repair": H(module="header", enc=["HeaderCodec::read_without_repair", "HeaderCodec::read"], sym="4 bytes anywhere in the legacy-lock region of an otherwise valid header", bound="4096-byte header image"),
     },
